@@ -2,13 +2,15 @@
 """Replay of finding F8 against the real `watchtower-client` binary (no CLN needed: the plugin protocol is JSON-RPC
 over stdin/stdout and main() does not call lightningd at start-up).
 
-usage: F8_plugin_driver.py <path to watchtower-client binary> [reply-kind ...]
+usage: plugin_driver.py <path to watchtower-client binary> [reply-kind ...]
 
 reply-kind (what the fake tower answers to POST /add_appointment):
    garbage      200 with a body that is not JSON            -> RequestError::DeserializeError
    wrongshape   200 with JSON of the wrong shape            -> RequestError::DeserializeError
    html500      500 with an HTML error page                 -> RequestError::DeserializeError
    refused      nothing listens on the port                 -> RequestError::ConnectionError (control: becomes pending)
+   misbehaving-register  (finding F13) the tower is proven misbehaving (proof on disk); `registertower` is run while it
+                does not answer; then it comes back and a revocation arrives: the client must never contact it again
    refused-dup  (finding F9) as `refused`, but the same revocation is delivered twice (CLN replays hooks), then a
                 second, different revocation is delivered: both must end up recorded exactly once
 
@@ -20,7 +22,7 @@ any appointment is recorded nowhere.
 import http.server, json, os, select, shutil, sqlite3, subprocess, sys, tempfile, threading, time, socket
 
 BIN = sys.argv[1]
-KINDS = sys.argv[2:] or ["garbage", "wrongshape", "html500", "refused", "refused-dup"]
+KINDS = sys.argv[2:] or ["garbage", "wrongshape", "html500", "refused", "refused-dup", "misbehaving-register"]
 TOWER_ID = bytes.fromhex("0279be667ef9dcbbac55a06295ce870b07029bfcdb2dce28d959f2815b16f81798")[:33]
 # version 2, one input spending ab..ab:0 with empty scriptSig, one 1000 sat output with empty script
 PENALTY = "02000000" + "01" + "ab" * 32 + "00000000" + "00" + "ffffffff" + "01" + "e803000000000000" + "00" + "00000000"
@@ -109,8 +111,62 @@ def counts(db):
     return r
 
 
+def f13(kind):
+    """returns True if the property held"""
+    d = tempfile.mkdtemp(prefix="f13_")
+    srv = None
+    hits = []
+    try:
+        p = Plugin(d); p.handshake(d); p.stop()
+        db = os.path.join(d, "watchtowers_db.sql3")
+        port = free_port()
+        other = bytes.fromhex("02c6047f9441ed7d6d3045406e95c07cd85c778e4b8cef3ca7abac09b95c709ee5")
+        loc = bytes.fromhex("11" * 16)
+        c = sqlite3.connect(db)
+        c.execute("INSERT INTO towers (tower_id, net_addr, available_slots) VALUES (?, ?, ?)", (TOWER_ID, "http://127.0.0.1:%d" % port, 100))
+        c.execute("INSERT INTO registration_receipts (tower_id, available_slots, subscription_start, subscription_expiry, signature) VALUES (?, ?, ?, ?, ?)",
+                  (TOWER_ID, 100, 1, 1000000, "sig"))
+        c.execute("INSERT INTO appointment_receipts (locator, tower_id, start_block, user_signature, tower_signature) VALUES (?, ?, ?, ?, ?)", (loc, TOWER_ID, 5, "usig", "tsig"))
+        c.execute("INSERT INTO misbehaving_proofs (tower_id, locator, recovered_id) VALUES (?, ?, ?)", (TOWER_ID, loc, other))
+        c.commit(); c.close()
+        p = Plugin(d); p.handshake(d)
+        tid = TOWER_ID.hex()
+        st0 = p.call("listtowers", [])["result"][tid]["status"]
+        ans = p.call("registertower", ["%s@127.0.0.1:%d" % (tid, port)])          # nothing listens: connection error
+        st1 = p.call("listtowers", [])["result"][tid]["status"]
+
+        class H(http.server.BaseHTTPRequestHandler):
+            def log_message(self, *a):
+                pass
+
+            def do_POST(self):
+                n = int(self.headers.get("content-length", 0)); self.rfile.read(n)
+                hits.append(self.path)
+                body = b"not json"
+                self.send_response(200); self.send_header("content-length", str(len(body))); self.end_headers(); self.wfile.write(body)
+        srv = http.server.HTTPServer(("127.0.0.1", port), H)
+        threading.Thread(target=srv.serve_forever, daemon=True).start()
+        p.call("commitment_revocation", {"commitment_txid": TXID, "penalty_tx": PENALTY, "channel_id": "00" * 32, "commitnum": 1})
+        t0 = time.time()
+        while time.time() - t0 < 8 and not hits:
+            time.sleep(0.2)
+        p.stop()
+        ok = (st1 == st0 == "misbehaving") and not hits
+        print("F13 status after reload=%s, after failed registertower=%s, requests the misbehaving tower then received=%s -> %s" % (
+            st0, st1, hits, "not contacted" if ok else "MISBEHAVING TOWER DOWNGRADED AND CONTACTED AGAIN"))
+        return ok
+    finally:
+        if srv:
+            srv.shutdown()
+        shutil.rmtree(d, ignore_errors=True)
+
+
 bad = 0
 for kind in KINDS:
+    if kind == "misbehaving-register":
+        if not f13(kind):
+            bad += 1
+        continue
     d = tempfile.mkdtemp(prefix="f8_")
     srv = None
     try:
